@@ -237,10 +237,10 @@ CalcOK(s, cv, c, o) == SamePos(s, o) /\ o.guard = 1
 
 -----------------------------------------------------------------------------
 \* C04 / C11: what a reader may report for a file that holds N accepted frames of block length B
-FramesAfterClose(fmt, B, N, F) ==
+FramesAfterClose(fmt, ch, B, N, F) ==
     \/ F = N
     \/ (B > 1 /\ N < F /\ F < N + B)
-    \/ (B = 1 /\ PadsOdd(fmt) /\ F = N + 1)
+    \/ (B = 1 /\ PadsOdd(fmt) /\ F = N + 1 /\ (N * ch * ByteWidth(Sub(fmt))) % 2 = 1)      \* one pad frame, only for odd byte totals
 \* crash image taken when the header said hdrN frames: whole blocks only
 FramesInImage(B, hdrN, F) == F = (hdrN \div B) * B
 
